@@ -170,9 +170,19 @@ fn step1<T: MV>(m: &mut Mesh1D<T, f64>, op: &Value, sc: &Sc, cid: i64, k: usize)
             "trap" => split(T::trap1(m, getu(op, "var")).unwrap() * p2(sc.sx + 1 + sc.sv), sc.kx, &mut o),
             "roundtrip" => {
                 let p = getu(op, "p");
-                let path = format!("{}/mesh_rt_{}_{}_{}.dat", file_dir(), std::process::id(), cid, k);
+                // `slot`: ONE file name reused by all round trips of this case with the same slot (removed at the end of the case), so that an
+                // output lands on a file that already holds an earlier, possibly LONGER output; without slot: a fresh file, removed at once.
+                // `aux` {n, nv, p}: before that, another mesh (n nodes, nv variables, p digits) is printed to the same file by the real output().
+                let slot = op.get("slot").and_then(|x| x.as_i64());
+                let path = match slot { Some(sl) => slot_path(cid, sl), None => format!("{}/mesh_rt_{}_{}_{}.dat", file_dir(), std::process::id(), cid, k) };
+                if let Some(a) = op.get("aux") {
+                    let (an, anv) = (getu(a, "n"), getu(a, "nv"));
+                    let mut aux = Mesh1D::<f64, f64>::new(Vector::create((0..an).map(|q| 5000.25 + 1.5 * q as f64).collect()), anv);
+                    for q in 0..an { aux.set_nodes_vars(q, Vector::create((0..anv).map(|v| 31415.926535 + (q * 7 + v) as f64).collect())); }
+                    aux.output(&path, getu(a, "p"));
+                }
                 let res = guarded(|| T::roundtrip(m, &path, p, getu(op, "m0")).unwrap());
-                let _ = std::fs::remove_file(&path);
+                if slot.is_none() { let _ = std::fs::remove_file(&path); }
                 let rb = match res { Ok(x) => x, Err(s) => panic!("{}", s) };
                 let unit = (10.0f64).powi(-(p as i32));
                 let n = m.nnodes().min(rb.nnodes()); let nv = m.nvars();
@@ -207,6 +217,8 @@ fn expand1(op: &Value, n: usize, nv: usize, xn: &[i64]) -> Vec<Value> {
     v
 }
 
+fn slot_path(cid: i64, slot: i64) -> String { format!("{}/mesh_rt_{}_{}_slot{}.dat", file_dir(), std::process::id(), cid, slot) }
+
 fn run1<T: MV>(case: &Value, out: &mut Out) {
     let cid = geti(case, "cid");
     let sc = sc_of(case);
@@ -225,6 +237,8 @@ fn run1<T: MV>(case: &Value, out: &mut Out) {
             k += 1;
         }
     }
+    // the reused round-trip files of this case
+    for op in case["ops"].as_array().unwrap() { if let Some(sl) = op.get("slot").and_then(|x| x.as_i64()) { let _ = std::fs::remove_file(slot_path(cid, sl)); } }
 }
 
 // ------------------------------------------------------------------ 2-D
@@ -316,6 +330,19 @@ pub fn exec(case: &Value, out: &mut Out) {
 }
 
 // ------------------------------------------------------------------ case generation (impl -> spec)
+/// round trips that REUSE one file name: (slot 1) a longer file first -- a bigger mesh (n + 4 nodes), more variables (4, when this mesh has 1),
+/// more digits (10 then 3) -- then this mesh over it; (slot 2) the reverse orders as controls: smaller first, fewer digits first
+fn rt_sequence(rng: &mut StdRng, n: usize, nv: usize, ops: &mut Vec<Value>) {
+    let big_nv = if nv == 1 { 4 } else { nv };
+    ops.push(json!({"op": "roundtrip", "p": rng.gen_range(2..=5), "m0": n, "slot": 1, "aux": {"n": n + 4, "nv": big_nv, "p": 10}}));      // big then small
+    ops.push(json!({"op": "roundtrip", "p": 10, "m0": 1, "slot": 1}));                                                                     // more digits over fewer
+    ops.push(json!({"op": "roundtrip", "p": 3, "m0": n + 3, "slot": 1}));                                                                   // fewer digits over more
+    ops.push(json!({"op": "roundtrip", "p": rng.gen_range(0..=2), "m0": n, "slot": 1, "aux": {"n": n, "nv": big_nv, "p": 12}}));           // same size, more variables / digits first
+    ops.push(json!({"op": "roundtrip", "p": 8, "m0": n, "slot": 2, "aux": {"n": 1, "nv": 1, "p": 2}}));                                    // controls: small then big
+    ops.push(json!({"op": "roundtrip", "p": 3, "m0": n, "slot": 2}));
+    ops.push(json!({"op": "roundtrip", "p": 11, "m0": n - 1, "slot": 2}));
+}
+
 /// a non-uniform dyadic grid with n nodes: numerators and the scale exponent s (x_k = X_k / 2^s), spacings 2^-k, 0 <= k <= 9
 fn grid(rng: &mut StdRng, n: usize, wide: bool) -> (Vec<i64>, i64) {
     let (klo, khi) = if wide { (0i64, 9i64) } else { let lo = rng.gen_range(0..=8i64); (lo, (lo + rng.gen_range(1..=4)).min(9)) };
@@ -379,7 +406,7 @@ fn gen1(rng: &mut StdRng, n: usize, nv: usize, ty: &str, wide: bool, len: usize,
         // file round trip into a mesh with equally many / fewer / more nodes (always on another grid, holding other data)
         ops.push(json!({"op": "roundtrip", "p": rng.gen_range(0..=12), "m0": ([n, 1, n + 3, n - 1][round % 4])}));
     }
-    if f64ty { for v in 0..nv { ops.push(json!({"op": "trap", "var": v})); } }
+    if f64ty { for v in 0..nv { ops.push(json!({"op": "trap", "var": v})); } rt_sequence(rng, n, nv, &mut ops); }
     json!({"kind": "m1", "ty": ty, "sx": sx, "sy": 0, "sv": sv, "ox": ox, "xn": xs, "yn": [], "nv": nv, "ops": ops})
 }
 
@@ -652,6 +679,7 @@ fn gen_stat1(rng: &mut StdRng, n: usize, nv: usize, fam: usize, small: bool) -> 
     for v in 0..nv { ops.push(json!({"op": "trap", "var": v})); }
     ops.push(json!({"op": "nodes"})); ops.push(json!({"op": "index_all"}));
     ops.push(json!({"op": "roundtrip", "p": rng.gen_range(6..=12), "m0": n}));
+    rt_sequence(rng, n, nv, &mut ops);
     json!({"kind": "m1", "ty": "f64", "sx": rng.gen_range(0..=6i64), "sy": 0, "sv": rng.gen_range(0..=2i64), "ox": ([0i64, 64, -64][rng.gen_range(0..3)]), "xn": xs, "yn": [], "nv": nv, "ops": ops, "family": "stat", "fam": fam})
 }
 /// 2-D mesh, family famx in x and famy in y (7 = ordinary random dyadic grid)
